@@ -96,11 +96,6 @@ def _build(cls, *args, **kwargs):
     return cls(*args, **kwargs)
 
 
-for _cls in (VCtrl, VDeco, VDeco2, VDecoFalsy, VPool, VPoolEmpty):
-    setattr(Site, _cls.__name__, _cls)
-    _cls.build = classmethod(_build)
-
-
 @yaml_tag(eager=True)
 def make_pool_now(*args, **kwargs):
     """A tag registered as a plain factory: the pool is built while the YAML is read."""
@@ -319,3 +314,9 @@ class VSvcThread(_SvcMixin, PoolDecorator):
             _event("beat", label=self.label, n=n)
             n += 1
             time.sleep(self.period)
+
+
+# every recording class is also reachable through a namespace class and an alternative constructor
+for _cls in (VCtrl, VDeco, VDeco2, VDecoFalsy, VPool, VPoolEmpty, VSvcPool, VSvcEmpty, VSvcCtrl, VSvcTrioDeco, VSvcDeco, VSvcWaiter, VSvcThread):
+    setattr(Site, _cls.__name__, _cls)
+    _cls.build = classmethod(_build)
